@@ -278,7 +278,7 @@ EXT = {
     "C09": " Added: asymmetric matrices with distinct entries (sharp density clause for directed networks); the same behaviours on "
            "CoupledClimateNetwork; NonLocalDef from the harness' coordinates; data-driven subclasses along ObjectSM histories "
            "(Val_C09d)."
-           ' Third round: the caller overwrites its similarity matrix after construction.',
+           ' Third round: the caller overwrites its similarity matrix after construction; Spearman, PartialCorrelation, MutualInfo and Havlin networks along ObjectSM histories (Val_C09d).',
     "C10": " Added: partial correlation (cofactors of the covariance matrix), surrogate test matrices (mean product, binned MI), "
            "translation invariance under a 2^20 offset, all climate classes of a case share one ClimateData."
            ' Third round: Gaussian conditional information transfer (ITY / MIT, one or two conditioning series, both lag modes) against cofactor partial correlations (Val_C10it); relations of the climate mutual-information matrix (symmetry, reordering, equal series); aequi-quantile binned mutual information of CouplingAnalysis (definition and the normalisation the library is pinned to).',
